@@ -1,6 +1,7 @@
 package main
 
 import (
+	"go/token"
 	"fmt"
 	"go/types"
 	"strings"
@@ -429,6 +430,24 @@ func (e *Enc) lookupLocal(fr *Frame, name string, b *ssa.BasicBlock, idx int, ph
 							return CE{T: e.get(st, it.visited, srt), Arr: srt}, true
 						}
 					}
+				}
+			}
+		}
+		return CE{}, false
+	}
+	if name == "$range" {
+		// the slice a "for i := range s" loop ranges over (it may have no source
+		// name, e.g. "range f(x)"): the operand of the len() the header compares
+		// the index with
+		for _, ins := range b.Instrs {
+			bo, ok := ins.(*ssa.BinOp)
+			if !ok || bo.Op != token.LSS {
+				continue
+			}
+			if call, ok := bo.Y.(*ssa.Call); ok {
+				if bi, ok := call.Call.Value.(*ssa.Builtin); ok && bi.Name() == "len" && len(call.Call.Args) == 1 {
+					v := e.val(fr, call.Call.Args[0])
+					return CE{T: v.T, Typ: call.Call.Args[0].Type()}, true
 				}
 			}
 		}
